@@ -28,7 +28,8 @@ _C19_MUST = (
     ["zapi_hostile_flavour_" + f for f in _C19_FLAVOURS] + ["zapi_rt_flavour_" + f for f in _C19_FLAVOURS] +
     # daemon-level unit (c19d): records written by EnableMrt / received by a BMP station
     ["mrt_scenarios_nontrivial", "mrt_table_dumps_checked", "mrt_peer_entries_compared", "mrt_rib_entries_compared", "mrt_prefixes_compared",
-     "mrt_bgp4mp_headers_compared", "mrt_bgp4mp_updates_compared", "mrt_rec_TABLE_DUMPv2/PEER_INDEX_TABLE", "mrt_rec_TABLE_DUMPv2/RIB_IPV4_UNICAST",
+     "mrt_bgp4mp_headers_compared", "mrt_bgp4mp_updates_compared", "mrt_peer_entries_compared_with_route_source",
+     "mrt_identity_event_new-router-id", "mrt_identity_event_new-as", "mrt_identity_event_withdraw-all", "mrt_identity_event_delete-peer", "mrt_rec_TABLE_DUMPv2/PEER_INDEX_TABLE", "mrt_rec_TABLE_DUMPv2/RIB_IPV4_UNICAST",
      "mrt_rec_TABLE_DUMPv2/RIB_IPV6_UNICAST", "mrt_rec_TABLE_DUMPv2/RIB_IPV4_UNICAST_ADDPATH", "mrt_rec_BGP4MP/MESSAGE", "mrt_rec_BGP4MP/MESSAGE_AS4",
      "mrt_rec_BGP4MP/MESSAGE_AS4_ADDPATH",
      "bmp_scenarios_nontrivial", "bmp_msg_initiation", "bmp_msg_peer-up", "bmp_msg_peer-down", "bmp_msg_route-monitoring", "bmp_msg_termination",
@@ -54,7 +55,8 @@ PROPS["C19"] = dict(
          "version/flavour, message type, first error text with numbers stripped or ok); daemon unit: case = one scenario (idx%3==2: BMP station in real "
          "time, else MRT update + table dump writers in virtual time; quick 60 MRT + 30 BMP scenarios, thorough 20x), non-trivial iff >=1 route record "
          "(BGP4MP / RIB_* / route monitoring with routes) was emitted, distinct by scenario shape hash (global AS, peer kinds/address family/AS width/"
-         "ADD-PATH/2-octet-only, policy, local routes, monitoring policy, late station, session-loss kind)",
+         "ADD-PATH/2-octet-only, policy, local routes, monitoring policy, late station, session-loss kind, identity events between the dumps of one table "
+         "dump writer: same address re-established with another router-id / re-configured with another AS, all routes withdrawn, neighbour deleted)",
     assumptions=["a value is 'constructible' when it is built through the package's constructors / fields with in-range, mutually consistent field values "
                  "(e.g. RTR prefix length <= max length <= address bits, BMP TLV class matching its type code, 2-octet AS numbers in non-AS4 MRT records, "
                  "BMP per-peer timestamps on the microsecond grid)",
